@@ -806,9 +806,12 @@ class Inliner:
                             self.expanded[m.qualname] = self.expanded.get(m.qualname, 0) + 1
                 self.objs = {}
             if ast.dump(new) != before:
-                from .model import _SplitTupleAssign
+                from .model import _SplitTupleAssign, _dissolve_records_in
+                _dissolve_records_in(ast.Module(body=[new], type_ignores=[]))
                 new = _SplitTupleAssign().visit(new)
                 _propagate_copies(new)
+                from .model import _sink_returns
+                _sink_returns(ast.Module(body=[new], type_ignores=[]))
                 ast.fix_missing_locations(new)
                 fi.raw_node = fi.node
                 self.prog._by_node.pop(id(fi.node), None)
